@@ -12,7 +12,7 @@ number of concurrent instances and any interleaving.
 FMTS = "qQiIx"
 KINDS = ["local", "map", "percpu", "packet", "pointer"]
 AMOUNTS = ["const5", "const64", "minus7", "register", "expression", "minus_register",
-           "minus_expression"]
+           "minus_expression", "fixed_const"]
 BIG = (1 << 40) + 3
 
 
@@ -27,6 +27,8 @@ def programs(tier):
             for amount in AMOUNTS:
                 if tier == "quick" and kind in ("map", "percpu", "pointer") and amount in ("const64", "minus7"):
                     continue
+                if amount == "fixed_const" and (fmt == "x" or kind in ("packet", "pointer")):
+                    continue      # a decimal amount on an INTEGER variable (the whole part is added)
                 out.append((f"{kind} {fmt} {amount}", kind, fmt, amount))
     return out
 
@@ -64,6 +66,8 @@ def build(kind, fmt, amount):
     def amt(self):
         if amount == "const5":
             return 5
+        if amount == "fixed_const":
+            return 3.0
         if amount == "const64":
             return BIG
         if amount == "minus7":
@@ -120,6 +124,8 @@ def amount_value(amount, src64, fmt):
     scale = 100000 if fmt == "x" else 1
     if amount == "const5":
         return z3.BitVecVal(5 * scale, 64)
+    if amount == "fixed_const":
+        return z3.BitVecVal(3, 64)          # the decimal 3.0 added to an integer variable
     if amount == "const64":
         return z3.BitVecVal(BIG * scale, 64)
     if amount == "minus7":
